@@ -49,8 +49,10 @@ func (k *UPNDNSInfo) Unmarshal(b []byte) (err error) {
 	if int(k.UPNOffset)+int(k.UPNLength) > len(b) || int(k.DNSDomainNameOffset)+int(k.DNSDomainNameLength) > len(b) {
 		return errors.New("UPN_DNS_INFO offsets and lengths point outside the buffer")
 	}
-	ub := mstypes.NewReader(bytes.NewReader(b[k.UPNOffset : k.UPNOffset+k.UPNLength]))
-	db := mstypes.NewReader(bytes.NewReader(b[k.DNSDomainNameOffset : k.DNSDomainNameOffset+k.DNSDomainNameLength]))
+	// The end of each field is computed as an int: in uint16 arithmetic offset+length wraps around for
+	// buffers of 64 KiB and more.
+	ub := mstypes.NewReader(bytes.NewReader(b[int(k.UPNOffset) : int(k.UPNOffset)+int(k.UPNLength)]))
+	db := mstypes.NewReader(bytes.NewReader(b[int(k.DNSDomainNameOffset) : int(k.DNSDomainNameOffset)+int(k.DNSDomainNameLength)]))
 
 	u := make([]rune, k.UPNLength/2, k.UPNLength/2)
 	for i := 0; i < len(u); i++ {
